@@ -177,7 +177,7 @@ class Job:
     def kani_cmd(self, extra=()):
         cmd = [
             "cargo", "kani", "--harness", f"{self.module}::{self.name}", "--exact",
-            "--target-dir", self.target, "-Z", "stubbing", "--no-assertion-reach-checks",
+            "--target-dir", self.target, "-Z", "stubbing", "--no-assertion-reach-checks", "--verbose",
         ]
         cmd += list(self.spec.get("kani_args", []))
         cmd += list(extra)
@@ -270,16 +270,89 @@ class Job:
         return r
 
     def playback(self):
-        """Re-run the failing harness with concrete playback and return the printed test vectors."""
-        env = base_env(self.cfgs, self.gen_dir)
-        extra = ["-Z", "concrete-playback", "--concrete-playback=print"]
-        if self.result.get("unwindset"):
-            extra += ["-Z", "unstable-options", "--cbmc-args", "--unwindset", ",".join(self.result["unwindset"])]
-        cmd = self.kani_cmd(extra)
-        run_limited(cmd, env, KANI_CRATE, max(1800, 4 * self.spec.get("timeout", 900)), self.spec.get("mem_gb", 12) * 1.5, self.logfile)
+        """Concrete inputs of the counterexample. Kani's own concrete-playback mode disables formula
+        slicing and needs several times the memory of the verification run (measured: 44 GB and
+        rising where the run took 6 GB), so the trace is obtained directly: the exact cbmc command
+        Kani ran (from its --verbose log) is re-run on the same GOTO binary with
+        `--property <failing check> --trace`, and the values returned by kani::any_raw_* are read
+        from the JSON trace in call order — the same extraction Kani's playback performs."""
         text = open(self.logfile, errors="replace").read()
-        text = text[text.rfind("\n$ cargo kani"):]
-        return [t for t in parse_playback(text) if t["kind"] != "cover"]
+        text = text[text.rfind("\n$ /usr/bin/time"):]
+        m = None
+        for m in re.finditer(r"\[Kani\] Running: `(cbmc [^`]*)`", text):
+            pass
+        if not m:
+            return []
+        import shlex
+        argv = shlex.split(m.group(1))
+        argv = [a for a in argv if a not in ("--json-ui",)]
+        if "--verbosity" in argv:
+            i = argv.index("--verbosity")
+            del argv[i:i + 2]
+        tests = []
+        for fc in self.result["failed"][:3]:
+            out_json = os.path.join(os.path.dirname(self.logfile), f"trace_{self.name}.json")
+            cmd = argv + ["--property", fc["check"], "--trace", "--json-ui", "--verbosity", "4"]
+            with open(out_json, "w") as of:
+                def pre():
+                    os.setsid()
+                    lim = int(self.spec.get("mem_gb", 12) * 1.5 * (1 << 30))
+                    resource.setrlimit(resource.RLIMIT_AS, (lim, lim))
+                p = subprocess.Popen(cmd, stdout=of, stderr=subprocess.DEVNULL, preexec_fn=pre)
+                try:
+                    p.wait(timeout=max(1800, 3 * self.spec.get("timeout", 900)))
+                except subprocess.TimeoutExpired:
+                    os.killpg(p.pid, signal.SIGKILL)
+                    p.wait()
+                    continue
+            vals = extract_any_values(out_json)
+            if vals is not None:
+                tests.append({"kind": "assertion", "desc": fc["desc"], "vals": vals})
+                break
+        return tests
+
+
+def _bits_to_bytes(b):
+    n = len(b) // 8
+    v = int(b, 2) if b else 0
+    return [(v >> (8 * i)) & 0xFF for i in range(n)]
+
+
+def _flatten_value(v, out):
+    if v is None:
+        return
+    if "binary" in v:
+        out.append(_bits_to_bytes(v["binary"]))
+    elif "elements" in v:
+        for e in v["elements"]:
+            _flatten_value(e.get("value"), out)
+    elif "members" in v:
+        for e in v["members"]:
+            _flatten_value(e.get("value"), out)
+
+
+def extract_any_values(trace_json):
+    """kani::any() values in call order from a cbmc --trace --json-ui run; None if no failing trace."""
+    try:
+        d = json.load(open(trace_json))
+    except Exception:  # noqa: BLE001
+        return None
+    for item in d:
+        res = item.get("result") if isinstance(item, dict) else None
+        cands = res if res else ([item] if isinstance(item, dict) and "trace" in item else [])
+        for r in cands:
+            if r.get("status") != "FAILURE" or "trace" not in r:
+                continue
+            vals = []
+            for st in r["trace"]:
+                if st.get("stepType") != "assignment":
+                    continue
+                fn = st.get("sourceLocation", {}).get("function", "")
+                lhs = st.get("lhs", "")
+                if fn.startswith("kani::any_raw_") and lhs.startswith("goto_symex$$return_value"):
+                    _flatten_value(st.get("value"), vals)
+            return vals
+    return None
 
 
 def schedule(jobs, max_jobs, mem_budget_gb):
@@ -343,9 +416,15 @@ def run_native(bindir, binary, args, timeout=300):
     return p.returncode, p.stdout, p.stderr
 
 
+REPLAY_CRATE = os.path.join(VERIF, "replay_native")
+_replay_build_lock = threading.Lock()
+
+
 def native_replay(job, vals, workdir):
-    """Run the harness natively on the solver's assignment: stubs are not applied, the guard is
-    off (std HashSet, real sort), real fmt. Returns dict profile -> (reproduced?, message)."""
+    """Run the harness natively on the solver's assignment with the ordinary toolchain: stubs are not
+    applied, the guard is off (std HashSet, real sort, real fmt). Both the dev profile (overflow
+    checks on, as Kani models) and the release profile (wrapping arithmetic, as users run).
+    Returns dict profile -> (reproduced?, message)."""
     vec_file = os.path.join(workdir, f"replay_{job.name}.txt")
     with open(vec_file, "w") as f:
         for v in vals:
@@ -353,26 +432,36 @@ def native_replay(job, vals, workdir):
     out = {}
     for profile in ("dev", "release"):
         env = base_env(job.cfgs, job.gen_dir)
-        env["RUSTFLAGS"] = " ".join("--cfg " + c for c in job.cfgs)  # guard off
-        if not env["RUSTFLAGS"]:
-            del env["RUSTFLAGS"]
-        env["VERIF_REPLAY_HARNESS"] = f"{job.module}::{job.name}"
-        env["VERIF_REPLAY_VALS"] = vec_file
-        env["CARGO_TARGET_DIR"] = os.path.join(workdir, "playback_target")
-        cmd = ["cargo", "kani", "playback", "-Z", "concrete-playback"]
-        if profile == "release":
-            cmd.append("--release")
-        cmd += ["--", "replay_entry", "--nocapture"]
+        env["RUSTFLAGS"] = " ".join(["--cfg kani"] + ["--cfg " + c for c in job.cfgs])  # guard off
+        tdir = os.path.join(workdir, "replay_target_" + "_".join(sorted(job.cfgs) or ["base"]))
+        cmd = ["cargo", "build", "--offline", "--target-dir", tdir] + (["--release"] if profile == "release" else [])
         lf = os.path.join(workdir, f"replay_{job.name}_{profile}.log")
-        rc, to, _ = run_limited(cmd, env, KANI_CRATE, 900, None, lf)
-        text = open(lf, errors="replace").read()
-        if "test result: FAILED" in text or "panicked at" in text:
-            m = re.search(r"panicked at ([^\n]*)\n([^\n]*)", text)
-            out[profile] = (True, (m.group(1) + " " + m.group(2)) if m else "test failed")
-        elif "test result: ok" in text and "1 passed" in text:
-            out[profile] = (False, "harness passes natively on the solver's assignment")
+        with _replay_build_lock:
+            rc, to, _ = run_limited(cmd, env, REPLAY_CRATE, 900, None, lf)
+        if rc != 0:
+            out[profile] = (None, "replay crate failed to build: " + open(lf, errors="replace").read()[-300:].replace("\n", " | "))
+            continue
+        exe = os.path.join(tdir, "release" if profile == "release" else "debug", "verif_replay")
+        try:
+            p = subprocess.run([exe, f"{job.module}::{job.name}", vec_file], capture_output=True, text=True, timeout=600)
+        except subprocess.TimeoutExpired:
+            out[profile] = (True, "native run did not terminate within 600 s")
+            continue
+        open(lf, "a").write(p.stdout + p.stderr)
+        msg = ""
+        m = re.search(r"REPLAY-PANIC: (.*)", p.stdout, re.S)
+        if m:
+            msg = " ".join(m.group(1).split())[:300]
+        if p.returncode == 3:
+            out[profile] = (True, msg or "panic")
+        elif p.returncode == 0:
+            out[profile] = (False, "harness completes natively on the solver's assignment")
+        elif p.returncode == 4:
+            out[profile] = (False, "assignment violates a harness assumption natively (stub-dependent value)")
+        elif p.returncode < 0 or p.returncode in (134, 139):
+            out[profile] = (True, f"process aborted (signal/abort rc={p.returncode}) " + (p.stderr[-200:].replace("\n", " | ")))
         else:
-            out[profile] = (None, "replay could not be run: " + text[-300:].replace("\n", " | "))
+            out[profile] = (None, f"replay rc={p.returncode}: " + (p.stdout + p.stderr)[-300:].replace("\n", " | "))
     return out
 
 
@@ -471,23 +560,24 @@ def run_property(prop, tier, seed, a):
         results = [j.result for j in jobs if j.result]
         # oracle dependencies: a property harness only counts if its oracle equivalences passed
         by_name = {r["harness"]: r for r in results}
-        for j in jobs:
+        lock = threading.Lock()
+
+        def handle_cex(j):
             r = j.result
-            if not r:
-                continue
-            if r["verdict"] == "counterexample":
-                log(f"  counterexample in {j.name}: {r['why']} — replaying natively")
-                tests = j.playback()
-                if not tests:
+            log(f"  counterexample in {j.name}: {r['why']} — replaying natively")
+            tests = j.playback()
+            if not tests:
+                with lock:
                     inconclusive.append((j.name, "counterexample but no concrete playback vector could be extracted"))
-                    continue
-                reproduced = None
-                for t in tests[:4]:
-                    rep = native_replay(j, t["vals"], workdir)
-                    r.setdefault("replays", []).append({"check": t["desc"], "vals": t["vals"], "native": {k: list(v) for k, v in rep.items()}})
-                    if any(v[0] for v in rep.values()):
-                        reproduced = (t, rep)
-                        break
+                return
+            reproduced = None
+            for t in tests[:4]:
+                rep = native_replay(j, t["vals"], workdir)
+                r.setdefault("replays", []).append({"check": t["desc"], "vals": t["vals"], "native": {k: list(v) for k, v in rep.items()}})
+                if any(v[0] for v in rep.values()):
+                    reproduced = (t, rep)
+                    break
+            with lock:
                 if reproduced:
                     t, rep = reproduced
                     rp = write_replay(prop, j.name, {
@@ -498,28 +588,47 @@ def run_property(prop, tier, seed, a):
                     violations.append((j.name, r["why"] + " | " + "; ".join(f"{k}: {v[1]}" for k, v in rep.items()), rp))
                 else:
                     inconclusive.append((j.name, "solver counterexample did not reproduce natively (stub/harness mismatch?) : " + r["why"]))
+
+        cex_threads = []
+        for j in jobs:
+            r = j.result
+            if not r:
+                continue
+            if r["verdict"] == "counterexample":
+                t = threading.Thread(target=handle_cex, args=(j,), daemon=True)
+                t.start()
+                cex_threads.append(t)
+                while sum(1 for x in cex_threads if x.is_alive()) >= 6:
+                    time.sleep(1)
             elif r["verdict"] == "inconclusive":
                 inconclusive.append((j.name, r["why"]))
+        for t in cex_threads:
+            t.join()
         for j in jobs:
             for dep in j.spec.get("deps", []):
                 d = by_name.get(dep)
                 if d is not None and d["verdict"] != "pass" and j.result and j.result["verdict"] == "pass":
                     inconclusive.append((j.name, f"depends on oracle harness {dep} which did not pass"))
-        # known findings: replay each witness natively
+        # known findings: replay each concrete witness natively (dev profile)
         for f in findings:
-            rc, out, err = run_native(bindir, "verif_native", ["finding", f["id"]])
-            still = rc == 3
+            stills, errs = [], []
+            for wid in f.get("witness_ids", []):
+                rc, out, err = run_native(bindir, "verif_native", ["finding", wid])
+                if rc == 3:
+                    stills.append(wid)
+                elif rc != 0:
+                    errs.append(wid + ": " + (out + err)[-200:])
             if f["status"] == "open":
-                if still:
+                if stills:
                     known_lines.append(f"KNOWN-FINDING: property={prop} {f['id']}: {f['what']}")
                 else:
-                    log(f"  note: open finding {f['id']} no longer reproduces ({out.strip()[-200:]})")
+                    log(f"  note: open finding {f['id']} no longer reproduces")
             else:  # fixed: regression guard, suppresses nothing
-                if still:
-                    rp = write_replay(prop, "finding-" + f["id"], {"finding": f, "output": out[-2000:]})
+                if stills:
+                    rp = write_replay(prop, "finding-" + f["id"], {"finding": f, "witnesses_failing": stills})
                     violations.append(("finding-" + f["id"], "previously fixed defect is back: " + f["what"], rp))
-                elif rc != 0:
-                    inconclusive.append(("finding-" + f["id"], "witness replay failed to run: " + (out + err)[-200:]))
+            if errs:
+                inconclusive.append(("finding-" + f["id"], "witness replay failed to run: " + "; ".join(errs)))
         for l in known_lines:
             log(l)
         for name, why, rp in violations:
@@ -538,7 +647,6 @@ def run_property(prop, tier, seed, a):
     finally:
         if not a.keep:
             shutil.rmtree(workdir, ignore_errors=True)
-            shutil.rmtree(os.path.join(KANI_CRATE, "target"), ignore_errors=True)
             try:
                 os.rmdir(os.path.join(VERIF, ".work"))
             except OSError:
@@ -557,8 +665,8 @@ def write_replay(prop, name, payload):
 
 
 def write_replay_dispatch(gen_dir):
-    """name → harness fn table used by the native replay entry point (kani/src/replay.rs)."""
-    lines = ["pub fn dispatch(name: &str, vals: Vec<Vec<u8>>) -> bool {", "    match name {"]
+    """name → harness fn table used by the native replay binary (replay_native/src/main.rs)."""
+    lines = ["pub fn dispatch(name: &str) -> bool {", "    match name {"]
     seen = set()
     for pid, p in PROPERTIES.items():
         for h in p["harnesses"]:
@@ -568,7 +676,7 @@ def write_replay_dispatch(gen_dir):
             seen.add(full)
             for c in h.get("cfgs", []):
                 lines.append(f"        #[cfg({c})]")
-            lines.append(f"        \"{full}\" => kani::concrete_playback_run(vals, crate::{full}),")
+            lines.append(f"        \"{full}\" => a5_verif_kani::{full}(),")
     lines += ["        _ => return false,", "    }", "    true", "}"]
     open(os.path.join(gen_dir, "replay_dispatch.rs"), "w").write("\n".join(lines) + "\n")
 
@@ -597,7 +705,6 @@ def replay_file(path):
         return 1 if any(v[0] for v in rep.values()) else 0
     finally:
         shutil.rmtree(workdir, ignore_errors=True)
-        shutil.rmtree(os.path.join(KANI_CRATE, "target"), ignore_errors=True)
 
 
 def write_evidence(prop, tier, seed, pdef, jobs, native_info, findings, known_lines, violations, inconclusive, wall, repo_rev, repo_dirty):
